@@ -24,7 +24,7 @@ def _is_as(kind, b):
     return _impl().is_base58check(x)
 
 
-from cliutil import fmt_in as _fmt_in, fmt_out as _fmt_out, result as _cli_result   # noqa: E402
+from cliutil import fmt_in as _fmt_in, fmt_out as _fmt_out, result as _cli_result, CliMalformed as _CliMalformed   # noqa: E402
 
 
 def _cli_enc(b, fmt, check):
@@ -42,7 +42,7 @@ def _cli_dec(s, fmt, check, pr):
         d = _fmt_out(out, fmt)
         nl = os.linesep.encode()
         if not d.endswith(nl):
-            raise RuntimeError("CliPrintNewlineMissing")
+            raise _CliMalformed("--print newline missing")
         return d[:-len(nl)]
     return _fmt_out(out, fmt)
 
